@@ -7,8 +7,13 @@ sys.path.insert(0, os.path.join(ROOT, "harness"))
 import common, envprops
 from common import Ctx
 
-args = [a for a in sys.argv[1:] if not a.startswith("--")]
-tier = "thorough" if "--tier" in sys.argv and sys.argv[sys.argv.index("--tier") + 1] == "thorough" else "quick"
+argv = sys.argv[1:]
+if "--tier" in argv:
+    i = argv.index("--tier"); tier_arg = argv[i + 1]; argv = argv[:i] + argv[i + 2:]
+else:
+    tier_arg = "quick"
+args = [a for a in argv if not a.startswith("--")]
+tier = "thorough" if tier_arg == "thorough" else "quick"
 ads = envprops.load_adapters()
 pids = args or sorted(set().union(*[a.serves for a in ads.values()]) & {"C04", "C05", "C06", "C07", "C08", "C09", "C10", "C11", "C12"})
 for pid in pids:
